@@ -90,6 +90,8 @@ def clause_filter(c, v, e):
         return True
     if v['path'].startswith('exact'):
         return c not in ('range', 'confine', 'nop-on-condfail')
+    if v['path'].startswith('envelope:nop-or-unimplemented') and c == 'nop-on-condfail':
+        return True                       # hint / barrier space: NOP, UNDEFINED or not-implemented - nothing else
     return c == 'outcome'
 
 
